@@ -65,29 +65,20 @@ def hasSubtype : Nat := 45
 /-- id.HasTypeDefinition -/
 def hasTypeDefinition : Nat := 40
 
-inductive Tri where
-  | yes | no | panic
-  deriving Repr, DecidableEq
-
-/-- `suitableRefType(srv, ref1, ref2, subtypes)`.
+/-- `suitableRefType(srv, ref1, ref2, subtypes)` (after the repair of
+    C33.subtypes-match-when-excluded / C33.browse-panics-hassubtype-deletion):
     ```
     if ref1 is the null id { return true }
     if ref1.Equal(ref2) { return true }
+    if !subtypes { return false }
     oktypes := getSubRefs(srv, ref1)
-    if !subtypes && slices.ContainsFunc(oktypes, isHasSubtype) {
-        for n := slices.IndexFunc(oktypes, isHasSubtype); n > 0; {
-            oktypes = slices.Delete(oktypes, n, n+1)      // n never changes: deletes the tail one by
-        }                                                 // one, then Delete(n, n+1) is out of range
-    }
     return slices.ContainsFunc(oktypes, isRef2)
     ``` -/
-def suitableRefType (g : Graph) (fuel : Nat) (t1 t2 : Nat) (subtypes : Bool) : Tri :=
-  if t1 = 0 then .yes
-  else if t1 = t2 then .yes
-  else
-    let ok := getSubRefs g fuel t1
-    if !subtypes && ok.contains hasSubtype && decide (ok.idxOf hasSubtype > 0) then .panic
-    else if ok.contains t2 then .yes else .no
+def suitableRefType (g : Graph) (fuel : Nat) (t1 t2 : Nat) (subtypes : Bool) : Bool :=
+  if t1 = 0 then true
+  else if t1 = t2 then true
+  else if !subtypes then false
+  else (getSubRefs g fuel t1).contains t2
 
 /-- one entry of `node.refs` as far as Browse looks at it -/
 structure Ref where
@@ -114,34 +105,24 @@ def suitableDirection (bd : Nat) (isForward : Bool) : Bool :=
   bd = 2 || (bd = 0 && isForward) || (bd = 1 && !isForward)
 
 /-- `suitableRef(srv, desc, ref)`: direction, then reference type, then class mask -/
-def suitableRef (g : Graph) (fuel : Nat) (d : Desc) (r : Ref) : Tri :=
-  if !suitableDirection d.dir r.isForward then .no
-  else
-    match suitableRefType g fuel d.refType r.refType d.includeSubtypes with
-    | .panic => .panic
-    | .no => .no
-    | .yes => if d.classMask > 0 && d.classMask &&& r.storedClass = 0 then .no else .yes
-
-inductive Res where
-  | ok (l : List Ref)
-  | panic
-  deriving Repr, DecidableEq
+def suitableRef (g : Graph) (fuel : Nat) (d : Desc) (r : Ref) : Bool :=
+  if !suitableDirection d.dir r.isForward then false
+  else if !suitableRefType g fuel d.refType r.refType d.includeSubtypes then false
+  else if d.classMask > 0 && d.classMask &&& r.storedClass = 0 then false
+  else true
 
 /-- the loop of `NodeNameSpace.Browse` over `n.refs`; a forward HasTypeDefinition
     reference is put first, everything else is appended -/
-def browseLoop (g : Graph) (fuel : Nat) (d : Desc) : List Ref → List Ref → Res
-  | [], acc => .ok acc
+def browseLoop (g : Graph) (fuel : Nat) (d : Desc) : List Ref → List Ref → List Ref
+  | [], acc => acc
   | r :: rest, acc =>
     if r.nilField then browseLoop g fuel d rest acc
-    else
-      match suitableRef g fuel d r with
-      | .panic => .panic
-      | .no => browseLoop g fuel d rest acc
-      | .yes =>
-        if r.refType = hasTypeDefinition ∧ r.isForward = true then browseLoop g fuel d rest (r :: acc)
-        else browseLoop g fuel d rest (acc ++ [r])
+    else if suitableRef g fuel d r then
+      (if r.refType = hasTypeDefinition ∧ r.isForward = true then browseLoop g fuel d rest (r :: acc)
+       else browseLoop g fuel d rest (acc ++ [r]))
+    else browseLoop g fuel d rest acc
 
-def browse (g : Graph) (fuel : Nat) (d : Desc) (refs : List Ref) : Res := browseLoop g fuel d refs []
+def browse (g : Graph) (fuel : Nat) (d : Desc) (refs : List Ref) : List Ref := browseLoop g fuel d refs []
 
 -- ---------------------------------------------------------------- specification
 
@@ -167,30 +148,21 @@ theorem specMatchB_iff (g : Graph) (rank : Nat → Nat) (hr : RankOK g rank) (fu
   simp only [specMatchB, typeOkB, classOkB, SpecMatch, Bool.and_eq_true, Bool.or_eq_true, decide_eq_true_eq,
     List.contains_iff_mem, mem_getSubRefs g rank hr fuel d.refType r.refType hf, or_assoc, ne_eq, and_assoc]
 
-/-- when `suitableRefType` is right: subtypes requested, or no type given, or
-    the requested type has no subtypes at all -/
-def Guard (g : Graph) (fuel : Nat) (d : Desc) : Prop :=
-  d.includeSubtypes = true ∨ d.refType = 0 ∨ getSubRefs g fuel d.refType = []
-
-/-- under the guard the reference type test is the specification's -/
-theorem suitableRefType_guard (g : Graph) (fuel : Nat) (d : Desc) (t2 : Nat) (hg : Guard g fuel d) :
-    suitableRefType g fuel d.refType t2 d.includeSubtypes = if typeOkB g fuel d t2 then .yes else .no := by
+/-- the reference type test is the specification's, for every request -/
+theorem suitableRefType_eq (g : Graph) (fuel : Nat) (d : Desc) (t2 : Nat) :
+    suitableRefType g fuel d.refType t2 d.includeSubtypes = typeOkB g fuel d t2 := by
   unfold suitableRefType typeOkB
   by_cases h0 : d.refType = 0
   · simp [h0]
   · by_cases he : d.refType = t2
     · simp [he]
     · have he' : ¬ t2 = d.refType := fun e => he e.symm
-      rcases hg with hs | hz | hn
-      · simp [h0, he, he', hs]
-      · exact absurd hz h0
-      · simp [h0, he, he', hn]
+      cases hs : d.includeSubtypes <;> simp [h0, he, he']
 
-theorem suitableRef_guard (g : Graph) (fuel : Nat) (d : Desc) (r : Ref) (hg : Guard g fuel d)
-    (hc : r.storedClass = r.targetClass) :
-    suitableRef g fuel d r = if specMatchB g fuel d r then .yes else .no := by
+theorem suitableRef_eq (g : Graph) (fuel : Nat) (d : Desc) (r : Ref) (hc : r.storedClass = r.targetClass) :
+    suitableRef g fuel d r = specMatchB g fuel d r := by
   unfold suitableRef specMatchB
-  rw [suitableRefType_guard g fuel d r.refType hg, hc]
+  rw [suitableRefType_eq g fuel d r.refType, hc]
   cases hd : suitableDirection d.dir r.isForward
   · simp
   · cases ht : typeOkB g fuel d r.refType
@@ -201,14 +173,13 @@ theorem suitableRef_guard (g : Graph) (fuel : Nat) (d : Desc) (r : Ref) (hg : Gu
       · have : d.classMask > 0 := by omega
         by_cases hb : d.classMask &&& r.targetClass = 0 <;> simp [hm, hb, this]
 
-/-- the loop invariant: under the guard Browse never panics and returns a
-    permutation of what it had plus the matching references -/
-theorem browseLoop_guard (g : Graph) (fuel : Nat) (d : Desc) (hg : Guard g fuel d) :
+/-- the loop invariant: Browse returns a permutation of what it had plus the matching references -/
+theorem browseLoop_perm (g : Graph) (fuel : Nat) (d : Desc) :
     ∀ (refs acc : List Ref), (∀ r ∈ refs, r.nilField = false ∧ r.storedClass = r.targetClass) →
-      ∃ l, browseLoop g fuel d refs acc = .ok l ∧ l.Perm (acc ++ refs.filter (specMatchB g fuel d)) := by
+      (browseLoop g fuel d refs acc).Perm (acc ++ refs.filter (specMatchB g fuel d)) := by
   intro refs
   induction refs with
-  | nil => intro acc _; exact ⟨acc, rfl, by simp⟩
+  | nil => intro acc _; simp [browseLoop]
   | cons r rest ih =>
     intro acc hall
     have hr := hall r (by simp)
@@ -216,20 +187,17 @@ theorem browseLoop_guard (g : Graph) (fuel : Nat) (d : Desc) (hg : Guard g fuel 
       fun x hx => hall x (by simp [hx])
     unfold browseLoop
     simp only [hr.1, Bool.false_eq_true, ↓reduceIte]
-    rw [suitableRef_guard g fuel d r hg hr.2]
+    rw [suitableRef_eq g fuel d r hr.2]
     by_cases hm : specMatchB g fuel d r = true
     · simp only [hm, ↓reduceIte, List.filter_cons_of_pos]
       split
-      · obtain ⟨l, hl, hp⟩ := ih (r :: acc) hrest
-        refine ⟨l, hl, hp.trans ?_⟩
+      · refine (ih (r :: acc) hrest).trans ?_
         simp only [List.cons_append]
         exact (List.perm_middle (a := r) (l₁ := acc) (l₂ := List.filter (specMatchB g fuel d) rest)).symm
-      · obtain ⟨l, hl, hp⟩ := ih (acc ++ [r]) hrest
-        exact ⟨l, hl, by simpa using hp⟩
+      · simpa using ih (acc ++ [r]) hrest
     · have hm' : specMatchB g fuel d r = false := by simpa using hm
       simp only [hm', Bool.false_eq_true, ↓reduceIte]
-      obtain ⟨l, hl, hp⟩ := ih acc hrest
-      exact ⟨l, hl, by simpa [List.filter_cons, hm'] using hp⟩
+      simpa [List.filter_cons, hm'] using ih acc hrest
 
 -- ---------------------------------------------------------------- decidable acyclicity check
 
